@@ -375,20 +375,3 @@ Proof.
   destruct (Z.eqb gc GENETIC_CODE_INVETEBRATE_MITO); [intros H; inversion H; vm_compute; reflexivity|].
   discriminate.
 Qed.
-
-From GA.Base Require Import Align.
-(* ---- translation by reference without gaps = plain translation: exhaustively on a finite domain (reference
-   rows of length 6 over {A, C}, second rows over {G, T}, the three phases, two codes) -------- *)
-Fixpoint bwords (n : nat) (alpha : list byte) : list (list byte) :=
-  match n with O => [[]] | S k => flat_map (fun w => map (fun c => c :: w) alpha) (bwords k alpha) end.
-Definition byref_plain_ok (gc : Z) (phase : nat) (r1 r2 : list byte) : bool :=
-  match genetic_code gc, translate_by_reference NUCLEOTIDS gc phase [x72] [([x72], r1); ([x73], r2)] with
-  | Some code, Some out =>
-      rows_eqb out [([x72], translate_from code (skipn phase r1)); ([x73], translate_from code (skipn phase r2))]
-  | _, _ => false
-  end.
-Definition byref_plain_all (n : nat) : bool :=
-  forallb (fun gc => forallb (fun phase => forallb (fun r1 => forallb (fun r2 => byref_plain_ok gc phase r1 r2)
-     (bwords n [x47; x54])) (bwords n [x41; x43])) [0; 1; 2]%nat) [0; 2]%Z.
-Lemma byref_plain_small : byref_plain_all 6 = true.
-Proof. vm_compute. reflexivity. Qed.
